@@ -56,8 +56,15 @@ func headerValue(e gEnd, deco int, withTag bool, L int) string {
 		u := e.uri
 		if e.sip {
 			// parameters with a meaning elsewhere in the proxy (transport selects default ports) and an arbitrary one
-			u += []string{";transport=tcp", ";transport=tls", ";transport=udp;lr", ";user=phone;maddr=10.0.0.1;ttl=5"}[rt.Choice("known-uri-param", 4)]
-			u += ";" + rt.Str("dpk", clsParam, 1, L) + "?" + rt.Str("dhk", clsHdr, 1, L) + "=" + rt.Str("dhv", clsHdr, 1, L)
+			// parameters and headers, parameters only, or headers only
+			shape := rt.Choice("uri-decoration", 3)
+			if shape != 2 {
+				u += []string{";transport=tcp", ";transport=tls", ";transport=udp;lr", ";user=phone;maddr=10.0.0.1;ttl=5"}[rt.Choice("known-uri-param", 4)]
+				u += ";" + rt.Str("dpk", clsParam, 1, L)
+			}
+			if shape != 1 {
+				u += "?" + rt.Str("dhk", clsHdr, 1, L) + "=" + rt.Str("dhv", clsHdr, 1, L)
+			}
 		}
 		return "\"" + rt.Str("ddn", clsQuoted, 0, L) + "\" <" + u + ">;" + rt.Str("dxk", "[a-su-z]", 1, L) + "=" + rt.Str("dxv", clsToken, 1, L) + tag
 	case 2:
